@@ -252,6 +252,11 @@ def cases_c04(rng, thorough):
         xs = [rng.randint(0, 60) for _ in range(rng.randint(20, 80))]
         cases.append(src_case([G.op_group_by('id', 0, [G.op_simple('to_list')],
                                              rng.choice(variants))], G.ints(xs)))
+    for _ in range(30 if thorough else 10):     # next to two other with_memory_store pipelines on the same feed
+        inner = rng.choice([[], [G.op_simple('to_list')], [_scan_add()], [{'op': 'count', 'reduce': True}]])
+        g = G.op_group_by(*rng.choice(kfs), inner, rng.choice(variants))
+        xs = [rng.randint(0, 5) for _ in range(rng.randint(0, 10))]
+        cases.append(src_case([g] if rng.random() < 0.7 else [G.op_group_by('modc', 2, [g])], G.ints(xs), sibling=True))
     cases += shared_inner_cases(rng, 24 if thorough else 8,
                                 lambda r, inn: G.op_group_by('modc', r.choice([2, 3]), inn))
     # a key mapper that is not a function of the item (a round-robin dispatcher): it is
@@ -819,6 +824,7 @@ def cases_c13(rng, thorough):
         ('none', None), ('ignore', lambda: G.op_simple('ignore')),
         ('errmap', lambda: {'op': 'errmap', 'f': fn('errcode')}),
         ('errconst', lambda: {'op': 'errmap', 'f': fn('errconst', 77)}),
+        ('errnone', lambda: {'op': 'errmap', 'f': fn('errnone')}),     # (a missing value in place of the failure)
         ('router', lambda: G.op_simple('router')),
     ]
     downstream = [[], [G.op_scan('add', I(0))], [{'op': 'count', 'reduce': True}],
@@ -832,7 +838,7 @@ def cases_c13(rng, thorough):
             continue
         for hname, hk in handlers:
             anyds = [d for d in downstream if not (d and d[0]['op'] == 'scan')] \
-                if fname in ('tee-last', 'tee-mid') else downstream     # tuples come out of zip / combine_latest
+                if fname in ('tee-last', 'tee-mid') or hname == 'errnone' else downstream     # tuples come out of zip / combine_latest, None out of errnone
             for down in (anyds if thorough else rng.sample(anyds, 3)):
                 sp = space if thorough else rng.sample(space, 12) + [[2], [2, 2], [1, 2], [2, 1]]
                 for xs in sp:
@@ -890,6 +896,28 @@ def cases_c13(rng, thorough):
         lts = [(idx, G.ints(sorted(rng.choice([1, 2, 3, 4]) for _ in range(rng.randint(0, 6)))))
                for idx in rng.sample([0, 1, 5], rng.choice([1, 2]))]
         cases.append(mux_case(pipe, G.schedule(rng, lts)))
+    # an unhandled failure in front of a key-creating operator: the error event crosses the
+    # operator on the parent's path and ends the stream where it is demultiplexed, whether or
+    # not a window / group / segment is open for the key and whatever the inner pipeline handles
+    for _ in range(120 if thorough else 36):
+        fail = rng.choice([[G.op_map('failIf', 2)], [G.op_filter('failIfP', 2)], [G.op_scan('failAdd', I(0), c=2)]])
+        inner = rng.choice([[G.op_simple('to_list')], [G.op_simple('ignore'), G.op_simple('to_list')],
+                            [{'op': 'errmap', 'f': fn('errconst', 77)}, {'op': 'count', 'reduce': True}], []])
+        k = rng.randint(0, 3)
+        if k == 0:
+            w, st = rng.choice([(3, 2), (1, 3), (2, 2), (2, 1), (1, 2), (4, 3)])
+            kop = G.op_roll(w, st, inner)
+        elif k == 1:
+            kop = G.op_group_by('modc', 2, inner)
+        elif k == 2:
+            kop = G.op_split('divc', 2, inner)
+        else:
+            kop = {'op': 'time_split', 'tm': fn('id'), 'active': -1, 'inactive': rng.choice([1, 2]),
+                   'closing': fn('none'), 'incl': False, 'inner': inner}
+        xs = sorted(rng.choice([1, 1, 2, 3, 4]) for _ in range(rng.randint(1, 7)))
+        if k != 3:
+            rng.shuffle(xs)
+        cases.append(src_case(fail + [kop], G.ints(xs)))
     # rs.ops.multiplex (no store): stateless pipelines with handlers, and unhandled errors
     for _ in range(60 if thorough else 16):
         fail = rng.choice([G.op_map('failIf', 2), G.op_filter('failIfP', 2)])
@@ -1076,6 +1104,12 @@ def cases_c02(rng, thorough):
                                 [G.op_split('divc', 2, [_scan_add()])], [G.op_simple('distinct', f=fn('id'))]],
                           3 if thorough else 1)
     cases += multi_source_cases(rng, 60 if thorough else 15)
+    # every with_memory_store is a store section of its own: the pipeline next to two other
+    # with_memory_store pipelines subscribed to the same feed (one before, one after it)
+    for inner in STATEFUL():
+        if rng.random() < (1.0 if thorough else 0.4) and inner[0]['op'] not in ('mean',):
+            xs = [rng.randint(0, 4) for _ in range(rng.randint(1, 8))]
+            cases.append(src_case(inner, G.ints(xs), sibling=True))
     return cases
 
 
@@ -1706,6 +1740,11 @@ def main(prop):
             # and use it at every position where that descriptor occurs
             if c.get('mode') == 'mux' and 'multi' not in c and 'share_ops' not in c and rng.random() < 0.25:
                 c['share_ops'] = True
+            # a fifth of the plain-source cases run next to two other with_memory_store pipelines
+            # on the same feed
+            if c.get('mode') == 'src' and c.get('source', 'subject') == 'subject' and c.get('root', 'store') == 'store' \
+                    and 'sibling' not in c and rng.random() < 0.2:
+                c['sibling'] = True
             # and some are preceded by a warm-up subscription of the same piped observable that
             # is disposed with keys still open (what it received is a prefix of the events)
             if c.get('mode') == 'mux' and 'multi' not in c and len(c['src']) > 2 and rng.random() < 0.15 \
